@@ -19,6 +19,7 @@ import (
 //vp:all stub (*github.com/bolkedebruin/gokrb5/v8/config.Config).GetKDCs = vpGetKDCs
 //vp:all stub (*github.com/bolkedebruin/gokrb5/v8/config.Config).ResolveRealm = vpResolveRealm
 //vp:all stub net.Dial = vpNetDial
+//vp:all stub github.com/bolkedebruin/gokrb5/v8/config.Load = vpKrbLoad
 //vp:all stub github.com/jcmturner/gofork/encoding/asn1.Unmarshal = vpASN1Unmarshal
 //vp:all stub github.com/jcmturner/gofork/encoding/asn1.Marshal = vpASN1Marshal
 
@@ -50,6 +51,15 @@ func (c *vpKConn) Read(b []byte) (int, error) {
 			vpWaitProgress()
 		}
 		return 0, errors.New("vp: i/o timeout")
+	}
+	if c.rpos == 0 && !c.rerr {
+		// a KDC that answers this request only once it has received a later one as well
+		for len(vpConns) < vpKdcAnswersAfterConns && !c.closed {
+			vpWaitProgress()
+		}
+		if c.closed {
+			return 0, errors.New("vp: use of closed network connection")
+		}
 	}
 	if c.rpos >= len(c.reply) {
 		if c.closesAfterReply {
@@ -84,6 +94,9 @@ func (c *vpKConn) Read(b []byte) (int, error) {
 
 // vpSplitReplies: a TCP KDC's reply may arrive in two reads (set by the relay harness).
 var vpSplitReplies bool
+
+// vpKdcAnswersAfterConns: a KDC does not answer a request before this many connections have been opened to it.
+var vpKdcAnswersAfterConns int
 func (c *vpKConn) Write(b []byte) (int, error) {
 	if c.werr {
 		return 0, errors.New("vp: write failed")
@@ -123,6 +136,7 @@ func vpResetK() {
 	vpRealmCheck, vpAlwaysReply = false, false
 	vpSplitReplies = false
 	vpRealDER = false
+	vpKdcAnswersAfterConns = 0
 }
 
 // GetKDCs contract (gokrb5 randServOrder): error for an unknown realm, else (n, map{1..n -> host}).
@@ -173,7 +187,7 @@ func vpNetDial(network, address string) (net.Conn, error) {
 		if network == "tcp" {
 			// a KDC's reply over TCP carries its 4-byte big-endian length (RFC 4120 7.2.2)
 			c.reply = append([]byte{0, 0, 0, 3}, c.payload...)
-			c.closesAfterReply = vpAlwaysReply || vpBool("kdc-closes-after-reply-"+k)
+			c.closesAfterReply = vpBool("kdc-closes-after-reply-" + k)
 		} else {
 			c.reply = c.payload
 		}
@@ -249,11 +263,14 @@ func (w *vpRW) Write(b []byte) (int, error) {
 	return len(b), nil
 }
 
-func vpProxy() KerberosProxy {
+// the proxy as main() builds it: through InitKdcProxy, with the krb5.conf loader stubbed
+func vpKrbLoad(path string) (*krbconfig.Config, error) {
 	cfg := &krbconfig.Config{}
 	cfg.LibDefaults.DefaultRealm = "DEFAULT.REALM"
-	return KerberosProxy{krb5Config: cfg}
+	return cfg, nil
 }
+
+func vpProxy() KerberosProxy { return InitKdcProxy("/etc/krb5.conf") }
 
 //vp:property C20
 //vp:bounds method POST or any other <= 4-byte string; declared Content-Length in {-1, 0..8, 131072, 131073}; body carrying exactly / fewer bytes than declared; DER valid or not; 0..2 trailing bytes
@@ -528,5 +545,44 @@ func VP_C20_der() {
 	if len(vpConns) == 1 {
 		c := vpConns[0]
 		vpAssert(len(c.written) == 1 && vpEqBytes(c.written[0], krb), "kdc-receives-exactly-the-embedded-message")
+	}
+}
+
+
+//vp:property C20
+//vp:bounds two requests for the same realm served at the same time by ONE proxy value (as the HTTP server does): the realm has one TCP KDC, which answers the first request only after the second has reached it too, and the second after that; embedded messages and replies of 1 symbolic byte each; the KDC closes after replying or keeps the connection open
+//vp:assume cooperative schedule: a request runs until it waits for its KDC
+//vp:reach both-answered
+func VP_C20_two_requests() {
+	vpResetK()
+	vpRealmCheck = true
+	vpUnknown = false
+	vpUDPn, vpTCPn = 0, 1
+	vpKdcAnswersAfterConns = 2
+	vpAlwaysReply = true
+	proxy := vpProxy()
+	vpDERok, vpRest = true, 0
+	var ws [2]*vpRW
+	done := make(chan bool, 1)
+	serve := func(i int) {
+		// (the contract decoder hands out vpMsg: set it right before the handler decodes)
+		vpMsg = KdcProxyMsg{Message: []byte{0, 0, 0, 1, byte(0x60 + i)}, Realm: "BRANCH.TEST"}
+		ws[i] = &vpRW{hdr: http.Header{}}
+		proxy.Handler(ws[i], &http.Request{Method: "POST", ContentLength: 4, Body: &vpBody{data: make([]byte, 4)}})
+	}
+	go func() {
+		serve(1)
+		done <- true
+	}()
+	serve(0)
+	<-done
+	vpRunTasks()
+	vpReach("both-answered")
+	vpAssert(len(vpConns) == 2, "each-request-has-its-own-connection-to-the-kdc")
+	for i := 0; i < 2; i++ {
+		vpAssert(ws[i].status == 200, "a-request-whose-kdc-replied-is-answered-200-whatever-other-requests-do")
+	}
+	for _, c := range vpConns {
+		vpAssert(c.closed, "kdc-connection-closed-afterwards")
 	}
 }
